@@ -112,7 +112,14 @@ class TaskScheduler(object):
                 self._schedule_batch(task.batch)
                 self._tasks.pop()
             else:
-                task._compute()
+                try:
+                    task._compute()
+                except Exception:
+                    # A future that records its failure before re-raising it (e.g. Future with
+                    # a raising value provider) is computed; the error is delivered to the
+                    # tasks awaiting it instead of escaping from the scheduler.
+                    if not task.is_computed():
+                        raise
                 self._tasks.pop()
 
     def _schedule_batch(self, batch):
